@@ -292,20 +292,73 @@ structure RoundIn where
   nodeFit : Bool
   dims    : Nat        -- number of tracked resources
   nodes   : List Node  -- the nodes that have a usable NodeMetric
-  srcOrd  : List Nat   -- observed processing order of the source nodes
-  podOrd  : Nat → List Nat  -- observed eviction order of the pods of a source node
+  srcOrd  : List Nat   -- observed processing order of the source nodes (used to break ties only)
+  podOrd  : Nat → List Nat  -- observed eviction order of the pods of a source node (ties only)
+  nscore  : Nat → Int  -- sortNodesByUsage score of a node (by id) on its whole usage, `usageScore`
+  pscore  : Nat → Int  -- … on its prod usage
+  podKey  : Nat → List Int  -- sort key of a pod (by id) on its node, compared by `lexLe`
 
 /-- which early exit ended the round (0 = went on to evict). -/
 structure RoundOut where
   exit : Nat
   evs  : List Ev
   st   : St
+  /-- source nodes whose eviction loop ended because the running usage was back at/under the high
+      threshold (continueEvictionCond resets their detector): node pass / prod pass. -/
+  nodeResets : List Nat := []
+  prodResets : List Nat := []
 
 def ofClass (c : Cls) (ns : List Node) : List Node := ns.filter (fun n => classify n = c)
 
 /-- order the sources: observed ones first in observed order, the rest in list order. -/
 def orderNodes (ord : List Nat) (ns : List Node) : List Node :=
   (ord.filterMap fun i => ns.find? (·.id = i)) ++ ns.filter (fun n => !ord.contains n.id)
+
+/-! ### sort orders: sortNodesByUsage (sorter.ResourceUsageScorer) and sortPodsOnOneOverloadedNode
+(sorter.PodSorter).  Go's sort.Slice / sort.Sort are not stable: elements with equal keys may come
+in any order, so the OBSERVED processing order is used to order elements with equal keys — and for
+nothing else. -/
+
+/-- stable insertion sort (structural recursion, so it also evaluates inside the kernel). -/
+def insertBy {α} (le : α → α → Bool) (x : α) : List α → List α
+  | [] => [x]
+  | y :: ys => if le x y then x :: y :: ys else y :: insertBy le x ys
+
+def sortBy {α} (le : α → α → Bool) : List α → List α
+  | [] => []
+  | x :: xs => insertBy le x (sortBy le xs)
+
+/-- sorter.mostRequestedScore: `(min(requested, capacity) * 1000) / capacity`, 0 for capacity 0
+    (Go integer division truncates). -/
+def mostRequestedScore (req cap : Int) : Int :=
+  if cap = 0 then 0 else ((if req > cap then cap else req) * 1000).tdiv cap
+
+/-- sorter.ResourceUsageScorer over the resources of the usage map — the tracked resources AND
+    `pods`, which getNodeUsage always records — as (usage, capacity, weight) triples; the capacity is
+    the RAW allocatable (`CapUse.nodeScore`); a resource without an entry in ResourceWeights weighs 0. -/
+def usageScore (rs : List (Int × Int × Int)) : Int :=
+  let num := rs.foldl (fun a x => a + mostRequestedScore x.1 x.2.1 * x.2.2) 0
+  let den := rs.foldl (fun a x => a + x.2.2) 0
+  if den = 0 then 0 else num.tdiv den
+
+/-- sortNodesByUsage(…, ascending = false): highest score first; equal scores in observed order. -/
+def sortSources (score : Nat → Int) (ord : List Nat) (ns : List Node) : List Node :=
+  sortBy (fun a b => decide (score a.id ≥ score b.id)) (orderNodes ord ns)
+
+/-- lexicographic "≤" on sort keys (MultiSorter.Less walks the comparators in order). -/
+def lexLe : List Int → List Int → Bool
+  | [], _ => true
+  | _ :: _, [] => false
+  | a :: as, b :: bs => if a < b then true else if b < a then false else lexLe as bs
+
+/-- the processing order of ALL pods of a source node as pod ids: ascending by key, equal keys in
+    observed order.  `applyOrder` then restricts it to the removable pods (a sublist of a sorted
+    list is sorted).  Key layout (sorter.PodSorter + Reverse(PodUsage)), built by the driver:
+    [koordinator priority-class rank, priority, deletion cost, eviction cost,
+     1 if the pod has no metric, rank of the usage score (0 = highest)];
+    Kubernetes / koordinator QoS class and creation timestamp are equal for all generated pods. -/
+def podOrder (key : Nat → List Int) (obs : List Nat) (ps : List Pod) : List Nat :=
+  (sortBy (fun a b => lexLe (key a.id) (key b.id)) (applyOrder obs ps)).map (·.id)
 
 /-- evictPodsFromSourceNodes. -/
 def evictFromSources (dry nodeFit : Bool) (dims : Nat) (podOrd : Nat → List Nat)
@@ -324,31 +377,34 @@ def evictFromSources (dry nodeFit : Bool) (dims : Nat) (podOrd : Nat → List Na
 
 /-- processOneNodePool. -/
 def runRound (cfg : Cfg) (st : St) (r : RoundIn) : RoundOut :=
-  if r.total = 0 then ⟨1, [], st⟩ else
+  if r.total = 0 then { exit := 1, evs := [], st := st } else
   let low := ofClass .low r.nodes
   let high := ofClass .high r.nodes
   let plow := ofClass .prodLow r.nodes
   let phigh := ofClass .prodHigh r.nodes
   let both := ofClass .bothLow r.nodes
-  if high.isEmpty && phigh.isEmpty then ⟨2, [], st⟩ else
+  if high.isEmpty && phigh.isEmpty then { exit := 2, evs := [], st := st } else
   let (abn, nd) := filterRealAbnormal cfg.cond st.nodeDet high
   let (pabn, pd) := filterRealAbnormal cfg.cond st.prodDet phigh
-  if abn.isEmpty && pabn.isEmpty then ⟨3, [], ⟨nd, pd⟩⟩ else
-  if low.isEmpty && plow.isEmpty && both.isEmpty then ⟨4, [], ⟨nd, pd⟩⟩ else
+  if abn.isEmpty && pabn.isEmpty then { exit := 3, evs := [], st := ⟨nd, pd⟩ } else
+  if low.isEmpty && plow.isEmpty && both.isEmpty then { exit := 4, evs := [], st := ⟨nd, pd⟩ } else
   let nd := resetAll nd (low.map (·.id))
   let pd := resetAll pd (plow.map (·.id))
   let nd := resetAll nd (both.map (·.id))
   let allLow := low.length + plow.length + both.length
-  if (allLow : Int) ≤ cfg.numberOfNodes then ⟨5, [], ⟨nd, pd⟩⟩ else
-  if allLow = r.total then ⟨6, [], ⟨nd, pd⟩⟩ else
-  let src := orderNodes r.srcOrd abn
-  let psrc := orderNodes r.srcOrd pabn
-  let (b1, b2) := evictFromSources cfg.dryRun r.nodeFit r.dims r.podOrd src low psrc plow both
+  if (allLow : Int) ≤ cfg.numberOfNodes then { exit := 5, evs := [], st := ⟨nd, pd⟩ } else
+  if allLow = r.total then { exit := 6, evs := [], st := ⟨nd, pd⟩ } else
+  let src := sortSources r.nscore r.srcOrd abn
+  let psrc := sortSources r.pscore r.srcOrd pabn
+  let pord : Nat → List Nat := fun nid => match r.nodes.find? (·.id = nid) with
+    | some n => podOrder r.podKey (r.podOrd nid) n.pods
+    | none => []
+  let (b1, b2) := evictFromSources cfg.dryRun r.nodeFit r.dims pord src low psrc plow both
   let nd := resetAll nd b1.resets
   let pd := resetAll pd b2.resets
   let nd := markNormAll cfg.cond nd (src.map (·.id))
   let pd := markNormAll cfg.cond pd (psrc.map (·.id))
-  ⟨0, b1.evs ++ b2.evs, ⟨nd, pd⟩⟩
+  ⟨0, b1.evs ++ b2.evs, ⟨nd, pd⟩, b1.resets, b2.resets⟩
 
 /-- the harness reads `State()` of every cached detector after a round (currentState persists). -/
 def observeDets (c : Option Cond) (ds : Dets) : Dets :=
